@@ -32,9 +32,12 @@
  *   SB_AGGRALG_HI        1: hash_id = (symbolic 32 bit) << 32 | SB_AGGRALG  (ids beyond 32 bit);  default 0
  *   SB_HAS_CAL           calendar chain present;  SB_CAL_NLINKS 0..4;  SB_CAL_HAS_AGGRTIME 0/1;
  *   SB_CAL_INALG         algorithm spec of the calendar input hash;  SB_CAL_SIBALG {a,a,a,a} per link
+ *   SB_CAL_DIRS          {d,d,d,d} calendar link direction: -1 symbolic (default), 0 right link, 1 left link (concrete
+ *                        directions are needed when the chain is AGGREGATED with siblings of different digest lengths:
+ *                        a calendar step is hashed with the algorithm of its right operand)
  *   SB_HAS_PUB / SB_HAS_AUTH   publication record / calendar auth record present;  SB_PUBALG algorithm spec of its imprint
  *   SB_HAS_RFC           RFC3161 record present;  SB_RFC_IDXLEN 0..4;  SB_RFC_INALG spec;  SB_RFC_PRELEN {tstPre,tstSuf,sigPre,sigSuf} 0..2
- *   SB_RFC_ALGS          {tstInfoAlgo, sigAttrAlgo}: >= 0 concrete id, -1 = fully symbolic 64-bit value
+ *   SB_RFC_ALGS          {tstInfoAlgo, sigAttrAlgo}: >= 0 concrete id (any value up to 2^63-1), -1 = fully symbolic 64-bit value
  *   SB_HAS_DOC           context carries a document hash;  SB_DOCALG its algorithm spec
  * "algorithm spec": a >= 0  = that concrete algorithm id (needed wherever the imprint's algorithm selects a hasher);
  *                   a <  0  = symbolic algorithm id among all ids libksi accepts with digest length -a
@@ -111,6 +114,9 @@
 #ifndef SB_CAL_SIBALG
 #define SB_CAL_SIBALG {0, 0, 0, 0}
 #endif
+#ifndef SB_CAL_DIRS
+#define SB_CAL_DIRS {-1, -1, -1, -1}
+#endif
 #ifndef SB_HAS_PUB
 #define SB_HAS_PUB 0
 #endif
@@ -154,8 +160,9 @@ static const unsigned sb_idxlen[SB_MAXCH] = SB_IDXLEN;
 static const int sb_inalg[SB_MAXCH] = SB_INALG;
 static const int sb_aggralg[SB_MAXCH] = SB_AGGRALG;
 static const int sb_cal_sibalg[SB_MAXCAL] = SB_CAL_SIBALG;
+static const int sb_cal_dirs[SB_MAXCAL] = SB_CAL_DIRS;
 static const unsigned sb_rfc_prelen[4] = SB_RFC_PRELEN;
-static const int sb_rfc_algs[2] = SB_RFC_ALGS;
+static const long long sb_rfc_algs[2] = SB_RFC_ALGS;
 
 /* ---- the raw values (for oracles) ---- */
 struct sb_hash_v { u8 imp[65]; unsigned len; };            /* imprint bytes (imp[0] = algorithm id), len = imprint length */
@@ -343,7 +350,7 @@ static void sb_build(KSI_CTX *ctx) {
 				KSI_HashChainLink *lk = (KSI_HashChainLink *)malloc(sizeof(KSI_HashChainLink));
 				ASSUME(lk != NULL);
 				lk->ctx = ctx; lk->legacyId = NULL; lk->metaData = NULL; lk->levelCorrection = NULL;
-				SB.cal.link[l].isLeft = ND_BOOL(sb_cal_isleft);
+				if (sb_cal_dirs[l] < 0) SB.cal.link[l].isLeft = ND_BOOL(sb_cal_isleft); else SB.cal.link[l].isLeft = (sb_cal_dirs[l] != 0);
 				lk->isLeft = SB.cal.link[l].isLeft;
 				lk->imprint = sb_mk_hash(ctx, sb_cal_sibalg[l], &SB.cal.link[l].sib);
 				sb_cal_link[l] = lk;
